@@ -10,7 +10,7 @@ CHECKS = {
     "C20": dict(level="exploration", quick=(300, 90), thorough=(15000, 1500)),
     "C19": dict(level="exploration", quick=(400, 100), thorough=(6000, 1500)),
     "C18": dict(level="exploration", quick=(3000, 90), thorough=(40000, 1500)),
-    "C16": dict(level="fault_enumeration", quick=(40, 100), thorough=(4000, 1500)),
+    "C16": dict(level="fault_enumeration", quick=(32, 90), thorough=(4000, 1500)),
     "C12": dict(level="exploration", quick=(800, 90), thorough=(40000, 1500)),
     "C10": dict(level="exploration", quick=(1500, 90), thorough=(30000, 1500)),
     "C09": dict(level="exploration", quick=(600, 90), thorough=(12000, 1500)),
